@@ -117,15 +117,23 @@ struct bk_epreg { int fd; unsigned events; };
 /* fills out[] with up to max entries; returns count or -1 */
 static int bk_epoll_registrations(int epfd, struct bk_epreg *out, int max)
 {
-	char fn[64], line[256]; int n = 0;
+	/* raw open/read, no stdio: this runs at every wait (and in forked children, where every
+	 * allocation is a copy-on-write fault) */
+	char fn[64], buf[4096]; int n = 0, fd; ssize_t len, got = 0;
 	snprintf(fn, sizeof fn, "/proc/self/fdinfo/%d", epfd);
-	FILE *f = fopen(fn, "r");
-	if (!f) return -1;
-	while (fgets(line, sizeof line, f)) {
-		int t; unsigned e;
-		if (sscanf(line, "tfd: %d events: %x", &t, &e) == 2 && n < max) { out[n].fd = t; out[n].events = e; n++; }
+	fd = open(fn, O_RDONLY | O_CLOEXEC);
+	if (fd < 0) return -1;
+	while (got < (ssize_t)sizeof buf - 1 && (len = read(fd, buf + got, sizeof buf - 1 - got)) > 0) got += len;
+	close(fd);
+	buf[got] = 0;
+	for (char *p = buf; (p = strstr(p, "tfd:")) != NULL; ) {
+		char *e; long t = strtol(p + 4, &e, 10);
+		char *q = strstr(e, "events:");
+		if (!q) break;
+		unsigned long ev = strtoul(q + 7, &e, 16);
+		if (n < max) { out[n].fd = (int)t; out[n].events = (unsigned)ev; n++; }
+		p = e;
 	}
-	fclose(f);
 	return n;
 }
 
